@@ -4,11 +4,14 @@ import (
 	"context"
 	"errors"
 	"fmt"
+	"strings"
+	"sync"
 	"time"
 
 	goat "github.com/avos-io/goat"
 	"github.com/avos-io/goat/gen/goatorepo"
 	"google.golang.org/protobuf/proto"
+	"google.golang.org/protobuf/types/known/wrapperspb"
 )
 
 // c18ReadTimeout: a logical connection is polled with a deadline while nothing is pending for its key
@@ -255,4 +258,118 @@ func c18ChanShared(r *Run) {
 		r.Eval(fmt.Sprintf("chanshared/%d", i), true)
 		r.Count("c18.chanshared")
 	}
+}
+
+// c18CancelWithUnaryInFlight: one Server behind the demultiplexer (one Serve per key, as the library's
+// users wire it). Ten keys in turn have a unary call in flight — its handler blocked — when their key
+// is cancelled; the handlers are released afterwards. A long-lived key and a brand-new key are then
+// served as before: their envelopes are handed over and their unary calls answered.
+func c18CancelWithUnaryInFlight(r *Run) {
+	if !r.Want("cancelinflight") {
+		return
+	}
+	in := map[string]any{"victim_keys": 10, "each": "one unary call in flight (handler blocked) when Demux.Cancel(key) is called"}
+	r.Progress("cancelinflight", in)
+	shared := NewScript(0)
+	shared.Out = make(chan *Rpc, 1024)
+	ctx, cancel := context.WithCancel(context.Background())
+	impl := &Impl{}
+	gate := make(chan struct{})
+	entered := make(chan string, 64)
+	impl.SetUnary(func(c context.Context, req []byte) ([]byte, error) {
+		if strings.HasPrefix(string(req), "block") {
+			entered <- string(req)
+			<-gate
+		}
+		return unaryF(req), nil
+	})
+	srv := goat.NewServer("srv")
+	srv.RegisterService(&echoDesc, impl)
+	var serving sync.WaitGroup
+	dm := goat.NewDemux(ctx, shared, func(e *Rpc) string { return e.GetHeader().GetSource() }, func(rw goat.RpcReadWriter) {
+		serving.Add(1)
+		defer serving.Done()
+		srv.Serve(ctx, rw)
+	})
+	ran := make(chan struct{})
+	go func() { defer close(ran); dm.Run() }()
+	defer func() {
+		select {
+		case <-gate:
+		default:
+			close(gate)
+		}
+		srv.Stop()
+		dm.Stop()
+		cancel()
+		shared.FailRead(errInjectedRead)
+		shared.FailWrite(errInjectedWrite)
+		within(hangTimeout, func() { <-ran; serving.Wait() })
+	}()
+	id := uint64(0)
+	unary := func(key, payload string) *Rpc {
+		id++
+		body, _ := goat_marshal(&wrapperspb.BytesValue{Value: []byte(payload)})
+		return &Rpc{Id: id, Header: &goatorepo.RequestHeader{Method: mUnary, Source: key, Destination: "srv"}, Body: &goatorepo.Body{Data: body}}
+	}
+	feed := func(e *Rpc, what string) bool {
+		select {
+		case shared.In <- e:
+			return true
+		case <-time.After(hangTimeout):
+			r.Violate("cancelinflight.stall", "ops", "the demultiplexer's run loop stopped reading the shared transport ("+what+")", in, goroutineDump(), nil)
+			return false
+		}
+	}
+	answered := func(e *Rpc, what string) bool {
+		want := unaryF([]byte(what))
+		deadline := time.After(hangTimeout)
+		for {
+			select {
+			case got := <-shared.Out:
+				if got.Id == e.Id && got.GetHeader().GetDestination() == e.Header.Source {
+					if string(c11BodyOf(got)) != string(want) {
+						r.Violate("cancelinflight.reply", "ops", "a unary call was answered with something other than its handler's reply", in, shapeOf(got), nil)
+						return false
+					}
+					return true
+				}
+			case <-deadline:
+				r.Violate("cancelinflight.none", "ops", "a unary call of a live key was not answered ("+what+")", in, goroutineDump(), nil)
+				return false
+			}
+		}
+	}
+	call := func(key, payload string) bool {
+		e := unary(key, payload)
+		return feed(e, payload) && answered(e, payload)
+	}
+	if !call("keeper", "keeper-0") {
+		return
+	}
+	for v := 0; v < 10; v++ {
+		key := fmt.Sprintf("victim%d", v)
+		if !feed(unary(key, fmt.Sprintf("block-%d", v)), key) {
+			return
+		}
+		select {
+		case <-entered:
+		case <-time.After(hangTimeout):
+			r.Violate("cancelinflight.none", "ops", "a unary request of a fresh key did not reach its handler", in, goroutineDump(), nil)
+			return
+		}
+		dm.Cancel(key)
+		if !call("keeper", fmt.Sprintf("keeper-after-%d", v)) {
+			return
+		}
+	}
+	close(gate) // the abandoned handlers finish now; nobody is left to take their replies
+	time.Sleep(20 * time.Millisecond)
+	for k := 0; k < 3; k++ {
+		if !call("keeper", fmt.Sprintf("keeper-late-%d", k)) || !call(fmt.Sprintf("late%d", k), fmt.Sprintf("late-%d", k)) {
+			return
+		}
+	}
+	r.Eval("cancelinflight", true)
+	r.Count("c18.cancelinflight")
 }
